@@ -630,7 +630,7 @@ Proof.
   apply producers_In in Hd. destruct Hd as [d [Hd Hl]].
   unfold last_def in Hl. destruct (index_last_some d (outs ss) 1 b Hl) as [_ Hb].
   exists s. split; [eapply nth_error_In; exact Hi|]. split.
-  - replace (1 + i - 1) with i by lia. apply nth_error_nth. unfold outs. apply map_nth_error. exact Hi.
+  - replace (1 + i - 1) with i by lia. symmetry. apply nth_error_nth. unfold outs. apply map_nth_error. exact Hi.
   - rewrite (nth_error_nth (outs ss) (b - 1) 0 Hb). exact Hd.
 Qed.
 
